@@ -141,7 +141,7 @@ CLAIMED["C06"] = {
 
 CLAIMED["C10"] = {
     "text": "PARTIAL proof. Lean theorems over a token-level model of Display for Expression and of the recursive-descent expression parser (parse_expression / disjunct / conjunct / conditional / condition / value / sequence, mutual fuel recursion): roundtrip - for EVERY expression of the shapes the parser can produce (left operands of the right-recursive operators of lower level, `if`/`assert` not names), at every syntactic level, with any continuation that cannot extend the phrase and any fuel above 4*size+3, parsing the printed tokens returns exactly that expression and stops at the continuation (mutual structural induction over Expr/Exprs, incl. else-if chains, calls with any number of arguments, assert, groups); parsed_is_wellformed - whatever the parser returns, for any tokens and fuel, is of these shapes (7-way simultaneous induction on fuel), hence format_of_any_source: formatting any parseable source re-parses to the same tree and prints the same tokens again; corollaries parse_print, parse_print_fuel, parse_print_in_context (interpolations, defaults, dependency arguments), format_idempotent, group_keeps_parentheses. header_roundtrip: recipe header lines - quiet flag, name, positional parameters with `$` export and value defaults, the variadic parameter, prior and `&&` subsequent dependencies with expression arguments - print and parse back to exactly the header (models of parse_recipe up to expect_eol, parse_parameter, accept_dependency and of the matching Display code; list inductions over parameters, arguments and dependencies on top of the expression theorem). recipe_roundtrip: a whole recipe - header and body with text fragments, `{{ }}` interpolations and inner blank lines (model of parse_body incl. the trailing-blank-line pop) - round-trips; assignment_roundtrip ([export] name := expr); alias_roundtrip (targets with every `::` component, the thing seed C10-m1 drops). file_roundtrip: whole justfiles - model of parse_ast (attribute lines in both syntaxes with validity, duplicate detection and set order; parse_set in its three forms; keyword dispatch with all look-ahead guards; pop_doc_comment with eol_since_last_comment; expect_eol; import / mod / unexport / comments) and of Display for Ast with its blank-line layout as the lexer presents it: parse_ast(print items) = items minus the doc comment and attributes of `mod` items (Item.forget - the recorded finding as a theorem), for every well-formed item list; file_format_idempotent; parsed_file_is_wellformed (whatever parse_ast returns is well-formed) and the capstone format_of_any_file: if parse_ast accepts the tokens, the formatted file parses to the same items and formats to itself. Shell-expanded literals x'…' are modelled; the continuation condition of the expression theorem is exact (After). Statement oracle: ~8600 (quick) / ~100k (thorough) justfiles - a grammar covering every item kind, all 17 attributes in three syntaxes, every setting, every expression form, eight string flavours, linewise/shebang/script bodies with sigils, escapes, continuations, CRLF, missing final newline; exhaustive expression trees of depth 2 (3) in assignment, default, dependency-argument and interpolation position; the repository's 170 justfiles and README examples with mutations - compiled in-process: format(x) compiles, JSON dump equal, format(format(x)) = format(x); on files with the binary: --fmt --check exits 0 exactly on fixed points (incl. CRLF and missing-final-newline variants) and never writes, --fmt leaves the formatter's output; modules, imports, aliases into modules. Model tie: 3400 (60k) expressions 2500 (40k) recipe header lines 2500 (40k) whole items and 4500 (70k) whole files (every item kind, 25 % malformed) parsed by model and parser.rs (accept/reject, trees / parameters / dependencies / items equal) and printed by model and Display (tokens equal, blank-line layout included).",
-    "note": "Partial: everything is at token level (white space inside lines and the lexing of the printed text are checked by the differential, not proved); parsed_file_is_wellformed proves that parse_ast only returns items of the shapes file_roundtrip assumes, so format_of_any_file holds for every token list the parser accepts; not modelled: the function-name table consulted while parsing calls, the recursion-depth guard is not modelled. Known findings (recorded): doc comment / [doc] / [group] of a `mod` item are dropped by the formatter; a lone carriage return ending the last body line of a file is turned into CRLF. Fixed: [private] on aliases was dropped. The JSON dump is transparent for parentheses, so `same meaning` is equality of trees modulo groups.",
+    "note": "Partial: everything is at token level (white space inside lines and the lexing of the printed text are checked by the differential, not proved); parsed_file_is_wellformed proves that parse_ast only returns items of the shapes file_roundtrip assumes, so format_of_any_file holds for every token list the parser accepts; the recursion-depth guard is not modelled. Known findings (recorded): doc comment / [doc] / [group] of a `mod` item are dropped by the formatter; a lone carriage return ending the last body line of a file is turned into CRLF. Fixed: [private] on aliases was dropped. The JSON dump is transparent for parentheses, so `same meaning` is equality of trees modulo groups.",
     "technique": "Lean 4 proof (print/parse round trip by mutual structural induction) + statement oracle on generated, enumerated and mutated justfiles + token-level differential of parser and printer",
     "design": "4/C10",
 }
